@@ -78,6 +78,18 @@ func png(tag string, n int) []byte {
 	return b[:n]
 }
 
+func noise(tag string, n int) []byte {
+	b := append([]byte("\x89PNG\r\n\x1a\n\x00\x00\x00\rIHDR"), tag...)
+	x := uint64(88172645463325252)
+	for len(b) < n {
+		x ^= x << 13
+		x ^= x >> 7
+		x ^= x << 17
+		b = append(b, byte(x), byte(x>>8), byte(x>>16), byte(x>>24), byte(x>>32), byte(x>>40), byte(x>>48), byte(x>>56))
+	}
+	return b[:n]
+}
+
 func site(o *e2e.Origin, hold *e2e.Hold) []e2e.LQRow {
 	html := [][2]string{{"Content-Type", "text/html; charset=utf-8"}}
 	img := [][2]string{{"Content-Type", "image/png"}}
@@ -87,7 +99,9 @@ func site(o *e2e.Origin, hold *e2e.Hold) []e2e.LQRow {
 		pa1.Hold, pa1.HoldAt = hold, 1000
 	}
 	o.Handle("/pa1.png", pa1)
-	o.Handle("/pa2.png", e2e.Resp{Status: 200, Header: img, Entity: png("pa2", 2500)})
+	// a large incompressible asset: the WARC writer needs tens of milliseconds for its record, far longer than
+	// the finish -> delete path of the queue, so "finished => captured" is decided by the archiver's wait and not by luck
+	o.Handle("/pa2.png", e2e.Resp{Status: 200, Header: img, Entity: noise("pa2", 2<<20)})
 	o.Handle("/redir", e2e.Resp{Status: 301, Header: [][2]string{{"Location", "/redir-target"}, {"Content-Type", "text/plain"}}, Entity: []byte("moved\n")})
 	o.Handle("/redir-target", e2e.Resp{Status: 200, Header: html, Entity: e2e.HTMLPage("redirect target", nil, nil)})
 	o.Handle("/missing", e2e.Resp{Status: 404, Header: [][2]string{{"Content-Type", "text/plain"}}, Entity: []byte("not here\n")})
